@@ -2,12 +2,14 @@
 # usage: ./check.sh <PROP> [quick|thorough]   |   ./check.sh replay <file>
 # Builds the driver if needed (offline), then runs the check against /repo's current working tree.
 set -u
-cd /verif || exit 2
+ROOT=$(cd "$(dirname "$0")" && pwd)
+export VERIF_ROOT="$ROOT"
+cd "$ROOT" || exit 2
 export GOFLAGS=-mod=mod GOPROXY=off GOSUMDB=off GOTOOLCHAIN=local
 export PATH="$PATH:/opt/veriftools/go1.26.8/bin:/usr/local/go/bin"
 mkdir -p bin build
 cp -f /repo/go.sum harness/go.sum 2>/dev/null
-if ! (cd harness && go1.26.8 build -o /verif/bin/verif ./cmd/verif) ; then
+if ! (cd harness && go1.26.8 build -o "$ROOT/bin/verif" ./cmd/verif) ; then
   echo "check.sh: cannot build the driver" >&2
   exit 2
 fi
